@@ -23,6 +23,27 @@ func idsOfU(p []sop.RegistryPayload[sop.UUID]) string {
 	return fmt.Sprintf("%did", n)
 }
 
+func (d *regDeco) note(method string, after bool, err error, hp []sop.RegistryPayload[sop.Handle], up []sop.RegistryPayload[sop.UUID]) {
+	f := d.t.Env.OnRegistry
+	if f == nil {
+		return
+	}
+	ev := RegEvent{Txn: d.t.No, Method: method, After: after, Err: err}
+	for _, p := range hp {
+		for _, h := range p.IDs {
+			ev.Handles = append(ev.Handles, h)
+			ev.Tables = append(ev.Tables, p.RegistryTable)
+		}
+	}
+	for _, p := range up {
+		for _, id := range p.IDs {
+			ev.IDs = append(ev.IDs, id)
+			ev.Tables = append(ev.Tables, p.RegistryTable)
+		}
+	}
+	f(ev)
+}
+
 // ---- Registry ----
 type regDeco struct {
 	t  *Txn
@@ -47,7 +68,9 @@ func (d *regDeco) Add(ctx context.Context, p []sop.RegistryPayload[sop.Handle]) 
 	if a.Err != nil {
 		return a.Err
 	}
+	d.note("Add", false, nil, p, nil)
 	err := d.in.Add(ctx, p)
+	d.note("Add", true, err, p, nil)
 	d.t.leave(s)
 	return err
 }
@@ -56,7 +79,9 @@ func (d *regDeco) Update(ctx context.Context, p []sop.RegistryPayload[sop.Handle
 	if a.Err != nil {
 		return a.Err
 	}
+	d.note("Update", false, nil, p, nil)
 	err := d.in.Update(ctx, p)
+	d.note("Update", true, err, p, nil)
 	d.t.leave(s)
 	return err
 }
@@ -69,7 +94,9 @@ func (d *regDeco) UpdateNoLocks(ctx context.Context, allOrNothing bool, p []sop.
 	if a.Err != nil {
 		return a.Err
 	}
+	d.note(m, false, nil, p, nil)
 	err := d.in.UpdateNoLocks(ctx, allOrNothing, p)
+	d.note(m, true, err, p, nil)
 	d.t.leave(s)
 	return err
 }
@@ -78,7 +105,9 @@ func (d *regDeco) Remove(ctx context.Context, p []sop.RegistryPayload[sop.UUID])
 	if a.Err != nil {
 		return a.Err
 	}
+	d.note("Remove", false, nil, nil, p)
 	err := d.in.Remove(ctx, p)
+	d.note("Remove", true, err, nil, p)
 	d.t.leave(s)
 	return err
 }
